@@ -76,6 +76,9 @@ func cmdVerify(args []string) {
 			fmt.Printf("BIND FAIL: no function %s in %s\n", b.Name, b.Pkg)
 			continue
 		}
+		if b.Has("trusted") {
+			continue
+		}
 		n++
 		if err := e.VerifyFunc(fn, b, nil); err != nil {
 			fmt.Println("  ", err)
@@ -96,7 +99,7 @@ func cmdVerify(args []string) {
 		}
 	}
 	fmt.Printf("%d functions, %d obligations generated in %.1fs\n", n, len(e.Obls), time.Since(t0).Seconds())
-	e.Discharge(eng.SolverCfg{Timeout: *timeout, Parallel: 12, KeepDir: *keep})
+	e.Discharge(eng.SolverCfg{Timeout: *timeout, Parallel: 8, KeepDir: *keep})
 	counts := map[string]int{}
 	sort.SliceStable(e.Obls, func(i, j int) bool { return e.Obls[i].Name < e.Obls[j].Name })
 	for _, o := range e.Obls {
